@@ -9,6 +9,7 @@ LEVEL_TEXT = ("Round-trip monitoring: for generated core-grammar statements and 
               "byte, through both parse_one().sql() and transpile(); in the base dialect the two trees must be equal "
               "(library == and an independent canonical form); time-format strings built from each dialect's own "
               "vocabulary must be fixpoints and, when made of canonical tokens, come back unchanged.")
+LEVEL_TEXT += (' Joins without criteria are part of the statement grammar.')
 LEVEL_NOTE = "oracle is string equality / own canonical form; statements come from an own generator, not from sqlglot"
 TECHNIQUE = "runtime monitoring: round-trip fixpoint oracle over generated statements x all dialects"
 RULE = ("seeded core-grammar generator (typed SELECTs with joins/subqueries/CTEs/set ops/windows, expression statements "
